@@ -178,6 +178,10 @@ def run(ctx):
         for sd in range(3):
             do(ctx, 'ctor', ['bit', n, sd], nontrivial=('bit', n, sd))
             do(ctx, 'ctor', ['rpauli', n, sd], nontrivial=('rp', n, sd))
+    # LARGE registers: byte, word and cache-line boundaries of every packed or vectorised representation (8, 9, 16, 17, 33, 64, 65 qubits); model correspondence only
+    for n in gen.BIG:
+        for be in (['np', 'torch'] if n <= 33 else ['np']):
+            do(ctx, 'duality_corr', [be, gen.rmap(rng, ctx.model, n), rng.randint(0, n)], nontrivial=('big', be, n))
     for it in range(int(300 * B)):
         n = rng.randint(1, 6)
         m = gen.rmap(rng, ctx.model, n)
